@@ -44,6 +44,11 @@ class Mod:
             pxd = path[:-4] + '.pxd'
             if os.path.exists(pxd):
                 self.pxd_src = open(pxd, encoding='utf-8').read()
+                # names cimported by the .pxd are visible in the .pyx as well
+                for ln in self.pxd_src.split('\n'):
+                    ls = ln.strip()
+                    if re.match(r'(from\s+[\w.]+\s+)?cimport\s', ls) and ls not in self.facts.cimports:
+                        self.facts.cimports.append(ls)
             else:
                 self.pxd_src = ''
         else:
